@@ -5,7 +5,7 @@ namespace MpfVerif.Mode
 def Op.target : Op → Nat
   | .start m _ _ _ => m | .started m => m | .startedCb m => m | .stop m => m | .stopped m => m | .stoppedCb m => m
   | .addH m _ => m | .addSw m _ => m | .addDl m _ => m | .fireDl m _ => m | .turnEnd m => m
-  | .cfgPlay m _ => m | .addTm m _ => m | .fireTm m _ => m | .remTm m _ => m
+  | .cfgPlay m _ => m | .cfgSub m _ _ => m | .addTm m _ => m | .fireTm m _ => m | .remTm m _ => m
 
 def evIdx : Ev → Nat
   | .ws => 0 | .sg => 1 | .sd => 2 | .wp => 3 | .pg => 4 | .pd => 5
@@ -494,6 +494,15 @@ theorem step_inv (st st' : St) (op : Op) (hI : Inv st) (h : step st op = some st
   | cfgPlay m id =>
     simp only [step] at h
     split at h <;> cases h <;> exact ⟨hexcl, hstop, hmem, hsorted, hcfg, hlife, hturn⟩
+  | cfgSub m id on =>
+    simp only [step] at h
+    split at h
+    · cases h
+    · split at h
+      · cases h; exact ⟨hexcl, hstop, hmem, hsorted, hcfg, hlife, hturn⟩
+      · split at h
+        · split at h <;> cases h <;> exact ⟨hexcl, hstop, hmem, hsorted, hcfg, hlife, hturn⟩
+        · cases h; exact ⟨hexcl, hstop, hmem, hsorted, hcfg, hlife, hturn⟩
   | addTm m id =>
     simp only [step] at h
     split at h
@@ -631,6 +640,15 @@ theorem step_frame (st st' : St) (op : Op) (h : step st op = some st') :
   | cfgPlay m id =>
     simp only [step] at h
     split at h <;> cases h <;> exact ⟨rfl, rfl, rfl⟩
+  | cfgSub m id on =>
+    simp only [step] at h
+    split at h
+    · cases h
+    · split at h
+      · cases h; exact ⟨rfl, rfl, rfl⟩
+      · split at h
+        · split at h <;> cases h <;> exact ⟨rfl, rfl, rfl⟩
+        · cases h; exact ⟨rfl, rfl, rfl⟩
   | addTm m id =>
     simp only [step] at h
     split at h
@@ -673,6 +691,7 @@ theorem step_cfg (st st' : St) (op : Op) (h : step st op = some st') : st'.cfg =
   cases op <;> simp only [step] at h
   case start => split at h <;> cases h <;> simp [startCore, cleanup_cfg]
   case stoppedCb => split at h <;> cases h; simp [cbCore, cleanup_cfg]
+  case cfgSub => (repeat' split at h) <;> cases h <;> rfl
   all_goals (first | (split at h <;> cases h <;> rfl) | (cases h; rfl))
 
 theorem run_cfg (st : St) (ops : List Op) : (run st ops).cfg = st.cfg := by
@@ -687,30 +706,23 @@ theorem run_cfg (st : St) (ops : List Op) : (run st ops).cfg = st.cfg := by
 /-! ## the registries of config-player effects (`fx`) and of device-owned timers (`tm`) -/
 
 structure Inv2 (st : St) : Prop where
-  fxOwned : ∀ e ∈ st.fx, (st.modes e.owner).active = true
+  fxOwned : ∀ e ∈ st.fx, up (st.modes e.owner) = true
   tmOwned : ∀ e ∈ st.tm, alive (st.modes e.owner) = true
 
 theorem inv2_init (cfg : Nat → Cfg) : Inv2 (init cfg) := by
   constructor <;> simp [init]
 
-theorem active_upd (f : Nat → MState) (m : Nat) (ms' : MState) (l : List Ent)
-    (h : ∀ e ∈ l, (f e.owner).active = true) (hm : (∀ e ∈ l, e.owner ≠ m) ∨ ms'.active = true) :
-    ∀ e ∈ l, (upd f m ms' e.owner).active = true := by
+/-- a predicate on the owner's flags survives an update of mode `m` when no entry belongs to `m` or the new flags satisfy it -/
+theorem pred_upd (P : MState → Bool) (f : Nat → MState) (m : Nat) (ms' : MState) (l : List Ent)
+    (h : ∀ e ∈ l, P (f e.owner) = true) (hm : (∀ e ∈ l, e.owner ≠ m) ∨ (P (f m) = true → P ms' = true)) :
+    ∀ e ∈ l, P (upd f m ms' e.owner) = true := by
   intro e he
   by_cases ho : e.owner = m
   · rcases hm with hm | hm
     · exact absurd ho (hm e he)
-    · rw [ho]; simpa using hm
-  · rw [upd_other _ _ _ _ ho]; exact h e he
-
-theorem alive_upd (f : Nat → MState) (m : Nat) (ms' : MState) (l : List Ent)
-    (h : ∀ e ∈ l, alive (f e.owner) = true) (hm : (∀ e ∈ l, e.owner ≠ m) ∨ alive ms' = true) :
-    ∀ e ∈ l, alive (upd f m ms' e.owner) = true := by
-  intro e he
-  by_cases ho : e.owner = m
-  · rcases hm with hm | hm
-    · exact absurd ho (hm e he)
-    · rw [ho]; simpa using hm
+    · have := h e he
+      rw [ho] at this ⊢
+      simpa using hm this
   · rw [upd_other _ _ _ _ ho]; exact h e he
 
 theorem not_owned_of_filter (l : List Ent) (m : Nat) : ∀ e ∈ l.filter (fun e => !ownedBy m e), e.owner ≠ m := by
@@ -718,16 +730,13 @@ theorem not_owned_of_filter (l : List Ent) (m : Nat) : ∀ e ∈ l.filter (fun e
   have := (List.mem_filter.mp he).2
   simp [ownedBy, ho] at this
 
-theorem cleanup_inv2 (st : St) (m : Nat) (h2 : Inv2 st) (hna : (st.modes m).active = false) : Inv2 (cleanup st m) := by
+theorem cleanup_inv2 (st : St) (m : Nat) (h2 : Inv2 st) : Inv2 (cleanup st m) := by
   obtain ⟨hfx, htm⟩ := h2
   unfold cleanup
   split
   · refine ⟨?_, ?_⟩ <;> dsimp only
-    · refine active_upd st.modes m _ st.fx hfx (Or.inl ?_)
-      intro e he ho
-      have := hfx e he
-      rw [ho, hna] at this; cases this
-    · exact alive_upd st.modes m _ _ (fun e he => htm e (List.mem_filter.mp he).1) (Or.inl (not_owned_of_filter st.tm m))
+    · exact pred_upd up st.modes m _ st.fx hfx (Or.inr (by simp [up]))
+    · exact pred_upd alive st.modes m _ _ (fun e he => htm e (List.mem_filter.mp he).1) (Or.inl (not_owned_of_filter st.tm m))
   · exact ⟨hfx, htm⟩
 
 theorem step_inv2 (st st' : St) (op : Op) (h2 : Inv2 st) (h : step st op = some st') : Inv2 st' := by
@@ -737,86 +746,46 @@ theorem step_inv2 (st st' : St) (op : Op) (h2 : Inv2 st) (h : step st op = some 
     simp only [step] at h
     split at h
     · cases h; exact ⟨hfx, htm⟩
-    · rename_i hg
-      cases h
-      have hna : (st.modes m).active = false := by
-        cases hx : (st.modes m).active <;> simp [hx] at hg ⊢
-      obtain ⟨cfx, ctm⟩ := cleanup_inv2 st m ⟨hfx, htm⟩ hna
-      have hna' : ((cleanup st m).modes m).active = false := by rw [(cleanup_flags st m m).1]; exact hna
+    · cases h
+      obtain ⟨cfx, ctm⟩ := cleanup_inv2 st m ⟨hfx, htm⟩
       unfold startCore
       refine ⟨?_, ?_⟩ <;> dsimp only
-      · refine active_upd _ m _ _ cfx (Or.inl ?_)
-        intro e he ho
-        have := cfx e he
-        rw [ho, hna'] at this; cases this
-      · exact alive_upd _ m _ _ ctm (Or.inr (by simp [alive]))
+      · exact pred_upd up _ m _ _ cfx (Or.inr (by simp [up]))
+      · exact pred_upd alive _ m _ _ ctm (Or.inr (by simp [alive]))
   | started m =>
     simp only [step] at h
     split at h
     · cases h
     · cases h
-      exact ⟨active_upd _ m _ _ hfx (Or.inr rfl), alive_upd _ m _ _ htm (Or.inr (by simp [alive]))⟩
+      exact ⟨pred_upd up _ m _ _ hfx (Or.inr (by simp [up])), pred_upd alive _ m _ _ htm (Or.inr (by simp [alive]))⟩
   | startedCb m =>
     simp only [step] at h
     split at h
     · cases h
     · cases h
-      refine ⟨?_, ?_⟩ <;> dsimp only
-      · intro e he
-        by_cases ho : e.owner = m
-        · rw [ho]; simp; rw [← ho]; exact hfx e he
-        · rw [upd_other _ _ _ _ ho]; exact hfx e he
-      · intro e he
-        by_cases ho : e.owner = m
-        · rw [ho]; simp; rw [← ho]; exact htm e he
-        · rw [upd_other _ _ _ _ ho]; exact htm e he
+      exact ⟨pred_upd up _ m _ _ hfx (Or.inr (by simp [up])), pred_upd alive _ m _ _ htm (Or.inr (by simp [alive]))⟩
   | stop m =>
     simp only [step] at h
     split at h
     · cases h; exact ⟨hfx, htm⟩
-    · rename_i hg
-      cases h
-      have ha : (st.modes m).active = true := by
-        cases hx : (st.modes m).active <;> simp [hx] at hg ⊢
-      exact ⟨active_upd _ m _ _ hfx (Or.inr ha), alive_upd _ m _ _ htm (Or.inr (by simp [alive, ha]))⟩
+    · cases h
+      exact ⟨pred_upd up _ m _ _ hfx (Or.inr (by simp [up])), pred_upd alive _ m _ _ htm (Or.inr (by simp [alive]))⟩
   | stopped m =>
     simp only [step] at h
     split at h
     · cases h
     · cases h
       refine ⟨?_, ?_⟩ <;> dsimp only
-      · exact active_upd _ m _ _ (fun e he => hfx e (List.mem_filter.mp he).1) (Or.inl (not_owned_of_filter st.fx m))
-      · exact alive_upd _ m _ _ htm (Or.inr (by simp [alive]))
+      · exact pred_upd up _ m _ _ (fun e he => hfx e (List.mem_filter.mp he).1) (Or.inl (not_owned_of_filter st.fx m))
+      · exact pred_upd alive _ m _ _ htm (Or.inr (by simp [alive]))
   | stoppedCb m =>
     simp only [step] at h
     split at h
     · cases h
     · cases h
-      -- cleanup (whatever the flags are: a restarted mode's cleanup is not pending any more), then the counter
-      have hc : Inv2 (cleanup st m) := by
-        unfold cleanup
-        split
-        · refine ⟨?_, ?_⟩ <;> dsimp only
-          · intro e he
-            by_cases ho : e.owner = m
-            · rw [ho]; simp; rw [← ho]; exact hfx e he
-            · rw [upd_other _ _ _ _ ho]; exact hfx e he
-          · exact alive_upd st.modes m _ _ (fun e he => htm e (List.mem_filter.mp he).1)
-              (Or.inl (not_owned_of_filter st.tm m))
-        · exact ⟨hfx, htm⟩
-      obtain ⟨cfx, ctm⟩ := hc
+      obtain ⟨cfx, ctm⟩ := cleanup_inv2 st m ⟨hfx, htm⟩
       unfold cbCore
-      refine ⟨?_, ?_⟩ <;> dsimp only
-      · intro e he
-        by_cases ho : e.owner = m
-        · have := cfx e he
-          rw [ho] at this ⊢; simpa using this
-        · rw [upd_other _ _ _ _ ho]; exact cfx e he
-      · intro e he
-        by_cases ho : e.owner = m
-        · have := ctm e he
-          rw [ho] at this ⊢; simpa [alive] using this
-        · rw [upd_other _ _ _ _ ho]; exact ctm e he
+      exact ⟨pred_upd up _ m _ _ cfx (Or.inr (by simp [up])), pred_upd alive _ m _ _ ctm (Or.inr (by simp [alive]))⟩
   | addH m id => simp only [step, Option.some.injEq] at h; cases h; exact ⟨hfx, htm⟩
   | addSw m id => simp only [step, Option.some.injEq] at h; cases h; exact ⟨hfx, htm⟩
   | addDl m id => simp only [step, Option.some.injEq] at h; cases h; exact ⟨hfx, htm⟩
@@ -840,8 +809,28 @@ theorem step_inv2 (st st' : St) (op : Op) (h2 : Inv2 st) (h : step st op = some 
       simp only [List.mem_append, List.mem_singleton] at he
       rcases he with he | he
       · exact hfx e he
-      · rw [he]; simp only [Bool.and_eq_true] at hg; exact hg.1.1
+      · rw [he]; simp only [Bool.and_eq_true] at hg; simp [up, hg.1.1]
     · cases h; exact ⟨hfx, htm⟩
+  | cfgSub m id on =>
+    simp only [step] at h
+    split at h
+    · cases h
+    · rename_i hg
+      have hu : up (st.modes m) = true := by simpa using hg
+      split at h
+      · cases h; exact ⟨hfx, htm⟩
+      · split at h
+        · split at h
+          · cases h; exact ⟨hfx, htm⟩
+          · cases h
+            refine ⟨?_, htm⟩
+            intro e he
+            simp only [List.mem_append, List.mem_singleton] at he
+            rcases he with he | he
+            · exact hfx e he
+            · rw [he]; exact hu
+        · cases h
+          exact ⟨fun e he => hfx e (List.mem_filter.mp he).1, htm⟩
   | addTm m id =>
     simp only [step] at h
     split at h
@@ -920,6 +909,21 @@ theorem step_frame2 (st st' : St) (op : Op) (h : step st op = some st') :
     split at h
     · cases h; simp [Op.target, List.filter_append]
     · cases h; exact ⟨rfl, rfl⟩
+  | cfgSub m id on =>
+    simp only [step] at h
+    split at h
+    · cases h
+    · split at h
+      · cases h; exact ⟨rfl, rfl⟩
+      · split at h
+        · split at h
+          · cases h; exact ⟨rfl, rfl⟩
+          · cases h; simp [Op.target, List.filter_append]
+        · cases h
+          refine ⟨?_, rfl⟩
+          dsimp only [Op.target]; apply filter_other_filter; intro e he
+          simp only [bne_iff_ne, ne_eq]
+          intro heq; rw [heq] at he; exact he rfl
   | addTm m id =>
     simp only [step] at h
     split at h
